@@ -26,6 +26,7 @@ type vModelSub struct {
 	active bool
 	late   bool // subscribed after the subject had terminated
 	self   bool // unsubscribes itself inside its first callback
+	resub  bool // (Share model) subscribes again from inside its terminal callback
 }
 
 // deliver appends an event to a subscriber's expectation, honouring self-unsubscription:
